@@ -1,8 +1,157 @@
 (* Props/C03.v — the property theorems of C03 and nothing else.
-   C03: every piece of request data is visible to rules, decoded once, never dropped. *)
+   C03: every piece of request data is visible to rules, decoded once, never dropped.
+   [fold] is Go's strings.ToLower (an oracle on non-ASCII names), [ord] the order in which Go's
+   range visits a map: every theorem holds for all of them. *)
+From Coq Require Import String Permutation.
 From Verif Require Import Base Decode DecodeProofs.
 
-(* queryUnescape inverts the percent encoder on every byte string *)
+(* queryUnescape inverts the percent encoder on every byte string ... *)
 Theorem C03_unescape_encode : forall s, wf_bytes s -> query_unescape (pct_enc s) = s.
 Proof. exact unescape_encode. Qed.
 Print Assumptions C03_unescape_encode.
+
+(* ... and every other valid encoding (raw unreserved bytes, %XY in either case, '+' for space) *)
+Theorem C03_unescape_any_encoding : forall reserved s e,
+  reserved 43 = true -> reserved 37 = true -> enc_str reserved s e -> query_unescape e = s.
+Proof. exact unescape_valid_encoding. Qed.
+Print Assumptions C03_unescape_any_encoding.
+
+(* doParseQuery reads back every pair of every list, in order, for every valid encoding of the
+   names and values joined with '=' and the separator; no guard on names (the empty name and
+   the empty value are kept) *)
+Theorem C03_parse_pairs_any_encoding : forall reserved sep l el,
+  reserved 43 = true -> reserved 37 = true -> is_delim reserved sep -> is_delim reserved 61 -> sep <> 61 ->
+  Forall2 (pair_encodes reserved) l el ->
+  parse_pairs sep true (join_pairs sep el) = l.
+Proof. exact parse_pairs_roundtrip. Qed.
+Print Assumptions C03_parse_pairs_any_encoding.
+
+(* the parsed map of enc_query l is the grouping of l: every pair present, the values of a name
+   in the order sent, nothing merged or attributed to another name *)
+Theorem C03_query_roundtrip : forall l, wf_pairs l ->
+  parse_query (enc_query l) 38 = group_pairs l /\
+  (forall k, gmap_get k (group_pairs l) = values_of k l) /\
+  Permutation (gmap_flat (group_pairs l)) l /\
+  NoDup (map fst (group_pairs l)).
+Proof.
+  intros l H. split; [|split; [|split]].
+  - unfold parse_query, do_parse_query. now rewrite query_roundtrip_pairs.
+  - intro k. apply group_pairs_lookup.
+  - apply group_pairs_flat.
+  - apply group_pairs_nodup.
+Qed.
+Print Assumptions C03_query_roundtrip.
+
+(* a literal %41 in a value is read back as %41 (decoding it again would give "A") *)
+Theorem C03_decoded_once : forall k, wf_bytes k ->
+  parse_pairs 38 true (enc_query [(k, str "%41"%string)]) = [(k, str "%41"%string)] /\
+  query_unescape (str "%41"%string) = [65%N].
+Proof. exact decoded_once. Qed.
+Print Assumptions C03_decoded_once.
+
+(* ProcessURI on "/path?" ++ enc_query l with fewer distinct names than SecArgumentsLimit:
+   ARGS_GET, ARGS, ARGS_NAMES hold exactly the pairs sent, QUERY_STRING / REQUEST_URI(_RAW) /
+   REQUEST_FILENAME / REQUEST_BASENAME are byte-exact, no error is raised *)
+Theorem C03_args_visible : forall fold limit l path ord method proto,
+  wf_pairs l -> dc_origin_path path = true ->
+  (distinct_names fold l < limit)%nat ->
+  Permutation ord (parse_query (enc_query l) 38) ->
+  let uri := path ++ [63%N] ++ enc_query l in
+  let t := process_uri fold dc_simple_parse_uri limit (fun _ => ord) txv_empty uri method proto in
+  Permutation (cm_find_all (v_args_get t)) l /\
+  Permutation (var_args t) l /\
+  Permutation (var_args_names t) (map (fun p => (fst p, fst p)) l) /\
+  v_query_string t = enc_query l /\ v_uri_raw t = uri /\ v_uri t = uri /\
+  v_filename t = path /\ v_basename t = dc_basename path /\ v_urlencoded_error t = false.
+Proof. exact process_uri_visible. Qed.
+Print Assumptions C03_args_visible.
+
+(* the same at the level of the collection, for any parsed map *)
+Theorem C03_args_visible_collection : forall fold limit l ord,
+  (distinct_names fold l < limit)%nat -> Permutation (gmap_flat ord) l ->
+  Permutation (cm_find_all (extract_arguments fold limit [] ord)) l.
+Proof. exact extract_under_limit. Qed.
+Print Assumptions C03_args_visible_collection.
+
+(* REFUTED (finding c03-args-over-limit-silent): beyond the limit an argument is in no variable,
+   under every iteration order, and neither URLENCODED_ERROR nor REQBODY_ERROR is raised *)
+Theorem C03_over_limit_signalled_refuted :
+  exists (l : list kv) (limit : nat), wf_pairs l /\
+  forall fold ord, Permutation ord (parse_query (enc_query l) 38) ->
+    let t := process_uri fold dc_simple_parse_uri limit (fun _ => ord) txv_empty
+                         (str "/?"%string ++ enc_query l) (str "GET"%string) (str "HTTP/1.1"%string) in
+    (exists p, In p l /\ ~ In p (cm_find_all (v_args_get t))) /\
+    v_urlencoded_error t = false /\ v_reqbody_error t = false.
+Proof. exact over_limit_silent_refuted. Qed.
+Print Assumptions C03_over_limit_signalled_refuted.
+
+(* every header with a non-empty name is in REQUEST_HEADERS byte-exact with its original
+   spelling; REQUEST_HEADERS:key selects by folded name, in order *)
+Theorem C03_header_visible : forall fold cookie_ord hs,
+  Permutation (cm_find_all (v_headers (add_headers fold cookie_ord txv_empty hs))) (filter nonempty_key hs) /\
+  forall k, dc_is_empty k = false ->
+    cm_find_string fold (v_headers (add_headers fold cookie_ord txv_empty hs)) k =
+    filter (fun e => bytes_eqb (fold (fst e)) (fold k)) (filter nonempty_key hs).
+Proof. intros. split; [apply headers_visible|intros; now apply headers_lookup]. Qed.
+Print Assumptions C03_header_visible.
+
+(* a urlencoded body (Content-Type: application/x-www-form-urlencoded, body access on):
+   ARGS_POST holds exactly the pairs sent (all case variants, repeated names: the F13 repair),
+   REQUEST_BODY is the body, no error *)
+Theorem C03_urlencoded_visible : forall fold cookie_ord cfg o l,
+  wf_pairs l -> bc_access cfg = true ->
+  Permutation (bo_post_ord o) (parse_query (enc_urlencoded l) 38) ->
+  let t := process_request_body fold cfg o (urlencoded_tx fold cookie_ord) (enc_urlencoded l) in
+  Permutation (cm_find_all (v_args_post t)) l /\
+  v_request_body t = enc_urlencoded l /\ v_reqbody_error t = false.
+Proof. exact urlencoded_visible. Qed.
+Print Assumptions C03_urlencoded_visible.
+
+(* JSON: when no two flattened paths coincide after case folding, every assignment of the
+   flattening is in ARGS_POST under every iteration order *)
+Theorem C03_json_visible_partial : forall fold w ord,
+  json_unambiguous fold w = true -> Permutation ord (json_res w) ->
+  Permutation (cm_find_all (json_apply fold [] ord)) w.
+Proof. exact json_visible_partial. Qed.
+Print Assumptions C03_json_visible_partial.
+
+(* the guard is satisfiable by a non-trivial body: {"a":"x","B":[1,null],"c":{"d":true}} *)
+Example C03_json_guard_example :
+  let t := JObj [(str "a"%string, JStr (str "x"%string));
+                 (str "B"%string, JArr [JRaw (str "1"%string); JNull]);
+                 (str "c"%string, JObj [(str "d"%string, JRaw (str "true"%string))])] in
+  json_unambiguous lower_ascii (fst (read_json t 10)) = true /\ length (fst (read_json t 10)) = 5%nat /\
+  snd (read_json t 10) = false.
+Proof. vm_compute. auto. Qed.
+
+(* REFUTED (finding c03-json-key-collision): {"a.b":1,"a":{"b":2}} loses the leaf json.a.b = 1 *)
+Theorem C03_json_collision_refuted :
+  exists t leaf, In leaf (json_leaves t (str "json"%string)) /\
+  forall fold ord, Permutation ord (json_res (fst (read_json t 10))) ->
+    snd (read_json t 10) = false /\ ~ In leaf (cm_find_all (json_apply fold [] ord)).
+Proof. exact json_collision_refuted. Qed.
+Print Assumptions C03_json_collision_refuted.
+
+(* input that cannot be parsed is signalled: URLENCODED_ERROR for the URI ... *)
+Theorem C03_unparseable_uri_signalled : forall fold parse_uri limit qo t uri method proto,
+  parse_uri (dc_cut_fragment uri) = None ->
+  v_urlencoded_error (process_uri fold parse_uri limit qo t uri method proto) = true.
+Proof. exact process_uri_error_signalled. Qed.
+Print Assumptions C03_unparseable_uri_signalled.
+
+(* ... REQBODY_ERROR for an unknown body processor, invalid or too deep JSON, a failing
+   multipart / XML parser *)
+Theorem C03_unparseable_body_signalled : forall fold cfg o t body,
+  bc_access cfg = true -> dc_is_empty body = false ->
+  match select_processor (eff_rbp cfg t) with
+  | PInvalid => True
+  | PJson => match bo_json o with
+             | None => True
+             | Some tree => snd (read_json tree (bc_depth cfg)) = true
+             end
+  | PMultipart | PXml => bo_ext_err o = true
+  | _ => False
+  end ->
+  v_reqbody_error (process_request_body fold cfg o t body) = true.
+Proof. exact body_error_signalled. Qed.
+Print Assumptions C03_unparseable_body_signalled.
